@@ -3,7 +3,8 @@ import ast
 
 from sa.algebra import Evaluator, Poly, Undecided
 from sa.calls import bind
-from sa.common import chain_root, expand_name, resolved_calls, returns_of
+from sa import guards as GD
+from sa.common import value_alternatives, chain_root, expand_name, resolved_calls, returns_of
 from sa.defuse import DefUse, loc_name
 from sa.model import AnalysisError, AnchorMissing, const_value, src, walk_function
 from sa.struct import call_name, find, kwarg, norm
@@ -87,6 +88,8 @@ def d1_comparators(ctx):
                 ds = [d for d in du.defs if d.var == nm and d.kind == "assign" and isinstance(d.value, ast.Call) and call_name(d.value) in ("mean", "count_nonzero", "sum")]
                 if ds:
                     cmp_, ax, full, unit = _mean_of_compare(du, ds[0].value, ds[0].stmt)
+                elif parts and isinstance(parts[0], ast.Call):  # the fraction written inside the padding expression
+                    cmp_, ax, full, unit = _mean_of_compare(du, parts[0], comb[2])
         if cmp_ is None:
             raise AnalysisError(f"saturation: cannot find the channel-fraction expression behind `{src(a.left)}`")
         ctx.check(const_value(ax) == (True, 0), fi, full, full, "fraction is taken over channels (axis 0)", f"fraction is taken over axis {src(ax) if ax else None}, not over channels",
@@ -209,7 +212,7 @@ def d2_d3_mute(ctx):
                 fa = {x.idx for x in du.strong_reaching(loc_name(a), d_stmt)} if loc_name(a) else set()
                 wv = expand_name(du, w, d_stmt)
                 okw = isinstance(wv, ast.Call) and call_name(wv) in ("cosine", "hann", "hanning") and "mute_window_samples" in src(wv)
-                mode = kwarg(form, "mode")
+                mode = kwarg(form, "mode") or (form.args[2] if len(form.args) > 2 else None)
                 okc = fa == final_flags and bool(fa) and okw and const_value(mode) == (True, "same")
             ctx.check(okc, fi, d_stmt, form, "x is the final flags convolved (same length) with the non-negative taper window",
                       f"`{src(form)}` is not convolve(<final flags>, cosine(mute_window_samples), mode='same')", key="conv")
@@ -278,15 +281,25 @@ def d4_callsite(ctx):
     if n == 0:
         raise AnchorMissing("decompress_destripe_cbin: call to saturation not found")
     fr = repo.fn("spikeglx.Reader.range_volts")
-    rets = returns_of(fr.node)
-    last = rets[-1]
     du = DefUse(fr.node)
-    v = last.value
-    ok = isinstance(v, ast.BinOp) and isinstance(v.op, ast.Mult)
-    if ok:
-        parts = [expand_name(du, x, last) for x in (v.left, v.right)]
-        ok = any(src(p) == "self.sample2volts" for p in parts) and any(isinstance(p, ast.Call) and call_name(p) == "_get_max_int_from_meta" for p in parts)
-    ctx.check(ok, fr, last, last, "full scale = volts per bit * max integer", f"`{src(last)}` is not sample2volts * max-int", key="range-volts")
+    # every value the property can return, with its branch predicates: with metadata it is sample2volts * max-int
+    n_meta = 0
+    for r in returns_of(fr.node):
+        if r.value is None:
+            continue
+        for gs, v in value_alternatives(du, r.value, r):
+            at = GD.Atoms()
+            pc = GD.And(*[GD.formula(t, at, pol) for t, pol in gs])
+            if GD.entails(pc, GD.Not(GD.Atom("self.meta"))) is True:
+                continue  # no metadata: documented NaN vector
+            n_meta += 1
+            ok = isinstance(v, ast.BinOp) and isinstance(v.op, ast.Mult)
+            if ok:
+                parts = (v.left, v.right)
+                ok = any(src(p) == "self.sample2volts" for p in parts) and any(isinstance(p, ast.Call) and call_name(p) == "_get_max_int_from_meta" for p in parts)
+            ctx.check(ok, fr, r, v, "full scale = volts per bit * max integer", f"`{src(v)}` is not sample2volts * max-int", key="range-volts")
+    if n_meta == 0:
+        raise AnchorMissing("Reader.range_volts: no value returned on the metadata path")
 
 
 def run(ctx):
